@@ -17,7 +17,7 @@ MANIFEST_INFO = {
     "engine": "A",
     "design_ref": "DESIGN.md section 5, C03",
     "technique": "stateless deviation-bounded DFS over stage behaviours of generated TestCase programs (incl. custom exception classes with user-inserted handlers and subclasses of the signal exceptions) on the real RunTest; allowed-outcome set derived from the lifecycle reference model",
-    "level_text": "Every program with at most 3 deviating stages (all ordered pairs and triples of (exception kind, stage); thorough: all stages) over setUp/test/tearDown/0-2 cleanups x 17 behaviours (incl. a BaseException subclass with its own user handler, one MultipleExceptions holding a failure then a skip, and a fixture whose setUp skips while its own cleanup fails), with/without expectThat mismatch (in the body, followed by a matching one, or only inside a cleanup) and force_failure, is run against a logging testtools.TestResult and an extended recorder; the single outcome must be success iff nothing raised, the mapped outcome for a sole exception (user handlers first, in list order), and an unsuccessful outcome (with wasSuccessful() false) whenever any stage raised a failure or an error.",
+    "level_text": "Every program with at most 3 deviating stages (all ordered pairs and triples of (exception kind, stage); thorough: all stages) over setUp/test/tearDown/0-2 cleanups x 18 behaviours (incl. a BaseException subclass with its own user handler, expectFailure around a predicate that raises an error, one MultipleExceptions holding a failure then a skip, and a fixture whose setUp skips while its own cleanup fails), with/without expectThat mismatch (in the body, followed by a matching one, or only inside a cleanup) and force_failure, is run against a logging testtools.TestResult and an extended recorder; the single outcome must be success iff nothing raised, the mapped outcome for a sole exception (user handlers first, in list order), and an unsuccessful outcome (with wasSuccessful() false) whenever any stage raised a failure or an error.",
     "level_note": "Custom exception classes with user handlers are only judged when they are the sole exception; exceptions raised by cleanups registered in setUp only.",
 }
 
